@@ -34,12 +34,12 @@ Verdict ==
         cons == Constructible(c.cfg)
         view == IF cons THEN ViewSeq(c.cfg) ELSE <<>>
         viewOK == (c.ok = 1) = cons /\ (cons => ViewSet(c.view) = ViewSet(view))
-        wf == c.ok = 1 /\ ~IsErr(c.dict)
+        wf == c.ok = 1 /\ AllOK(c.view)
         dictOK == IF ~cons THEN TRUE
                   ELSE SameDict(c.dict, DictOf(view, FALSE, FALSE)) \/ SameDict(c.dict, DictOf(view, FALSE, TRUE))
         replOK == IF ~cons THEN TRUE
                   ELSE SameDict(c.dictr, DictOf(view, TRUE, FALSE)) \/ SameDict(c.dictr, DictOf(view, TRUE, TRUE))
-        lawOK == wf => (~IsErr(c.back) /\ ViewSet(c.back) = ViewSet(c.view))
+        lawOK == wf => (~IsErr(c.dict) /\ ~IsErr(c.back) /\ ViewSet(c.back) = ViewSet(c.view))
         rlawOK == wf => (~IsErr(c.dictr) /\ ReplaceLaw(c.dict, c.dictr))
         dev == cons /\ AllOK(view) /\ HasLiteralDollar(view)
     IN PrintT("VERDICT " \o ToJson(<<i, B(viewOK), B(dictOK), B(replOK), B(lawOK), B(rlawOK), B(dev)>>))
